@@ -22,7 +22,7 @@
      (depth reached, mate score, single reply); polls that see the flag up do not change
      the state and are not represented (stutter).  So every search may end at any step,
      and it can always end (in particular once its flag is down);
-   * `position`: the parameter of `CPosition ok` says whether the command leaves
+   * `position`: the argument of `CPosition ok` says whether the command leaves
      `current_game = Some _` (`ok = true`) or `None`; a malformed `position` that leaves
      the game untouched is covered by choosing `ok` equal to the current value.  The
      `error: ...` lines of `position` are not output events of the model;
